@@ -63,8 +63,8 @@ def plan(tier: str) -> list:
                  "max_ops": 20},
                 {"name": "objectives", "n": 800, "hardness_p": 0.5,
                  "max_ops": 12}]
-    return [{"name": "decode", "n": 120000, "hardness_p": 0.0, "max_ops": 30},
-            {"name": "objectives", "n": 12000, "hardness_p": 0.5,
+    return [{"name": "decode", "n": 400000, "hardness_p": 0.0, "max_ops": 30},
+            {"name": "objectives", "n": 40000, "hardness_p": 0.5,
              "max_ops": 20}]
 
 
